@@ -704,7 +704,7 @@ Qed.
    definitions and the instance-else-memcmp rule of Cmp.c.  A changed shape leaves the definition
    out of Generated.v and this file no longer compiles (= broken obligation). *)
 Theorem source_shapes :
-  int_cmp_threeway = true /\ float_cmp_shape_ok = true /\ seq_cmp_shape_ok = true /\ tree_cmp_shape_ok = true /\
+  int_cmp_threeway = true /\ int_cmp_shape_ok = true /\ float_cmp_shape_ok = true /\ seq_cmp_shape_ok = true /\ tree_cmp_shape_ok = true /\
   cmp_predicates_shape_ok = true /\ cmp_default_shape_ok = true.
 Proof. repeat split. Qed.
 
